@@ -13,6 +13,7 @@ N0 == [op |-> "", rs |-> <<>>, neg |-> FALSE, cls |-> "", min |-> 0, max |-> 0, 
 Op(o)        == [N0 EXCEPT !.op = o]
 Chr(c)       == [N0 EXCEPT !.op = "chr", !.rs = << <<c, c>> >>]
 Cls(rs, neg) == [N0 EXCEPT !.op = "chr", !.rs = rs, !.neg = neg]
+ClsSub(rs, neg, sub) == [N0 EXCEPT !.op = "chr", !.rs = rs, !.neg = neg, !.kids = <<sub>>]   \* [rs-[sub]]
 Sh(c)        == [N0 EXCEPT !.op = "sh", !.cls = c]
 Dot          == Op("dot")
 Empty        == Op("empty")
